@@ -14,7 +14,9 @@ import (
 // ---------------------------------------------------------------------------------------------
 
 type root struct {
-	kind  string // recv | param | global | call | fresh
+	via string // "" = the value may BE (alias) the root's memory; otherwise it only holds a reference to it: in the field
+	// named here (of an object allocated in this call), or "[]" as an element of a slice / map / container
+	kind  string // recv | param | global | call | fresh | alloc (name = allocation site: memory allocated in this call)
 	name  string // param: "<index>:<name>"; global: short name "agent.sorterClass"; call: callee name
 	field string // first library struct field on the access path from the root ("" = none), e.g. "agent.sorter_.ranker_"
 }
@@ -37,9 +39,67 @@ func (s rootset) addAll(t rootset) bool {
 	return changed
 }
 
+func isFresh(r root) bool { return r.kind == "fresh" || r.kind == "alloc" }
+
+func allocAt(p token.Pos) rootset {
+	return rootset{root{kind: "alloc", name: fmt.Sprint(int(p))}: true}
+}
+
+func asElem(s rootset) rootset {
+	res := rootset{}
+	for r := range s {
+		if !isFresh(r) && r.via == "" {
+			r.via = "[]"
+		}
+		res[r] = true
+	}
+	return res
+}
+
+// the roots the value may alias (as opposed to merely hold a reference to)
+func identity(s rootset) rootset {
+	res := rootset{}
+	for r := range s {
+		if r.via == "" {
+			res[r] = true
+		}
+	}
+	return res
+}
+
+// the value was stored in the field / as an element [via] of an object allocated here: the object reaches all of it
+func heldVia(s rootset, via string) rootset {
+	res := rootset{}
+	for r := range s {
+		if isFresh(r) {
+			res[r] = true
+			continue
+		}
+		r.via = via
+		res[r] = true
+	}
+	return res
+}
+
+// reading the field / an element [via] of a value: what it aliases keeps its roots (with the field as first step),
+// what it holds through that field becomes what the read value aliases, what it holds elsewhere is left behind
+func derefVia(s rootset, via string) rootset {
+	res := rootset{}
+	for r := range s {
+		switch {
+		case r.via == "":
+			res[r] = true
+		case r.via == via:
+			r.via = ""
+			res[r] = true
+		}
+	}
+	return res
+}
+
 func (s rootset) onlyFresh() bool {
 	for r := range s {
-		if r.kind != "fresh" {
+		if !isFresh(r) {
 			return false
 		}
 	}
@@ -58,7 +118,10 @@ func (s rootset) sorted() []root {
 		if rs[i].name != rs[j].name {
 			return rs[i].name < rs[j].name
 		}
-		return rs[i].field < rs[j].field
+		if rs[i].field != rs[j].field {
+			return rs[i].field < rs[j].field
+		}
+		return rs[i].via < rs[j].via
 	})
 	return rs
 }
@@ -66,7 +129,7 @@ func (s rootset) sorted() []root {
 func withField(s rootset, f string) rootset {
 	res := rootset{}
 	for r := range s {
-		if r.kind != "fresh" && r.field == "" {
+		if !isFresh(r) && r.field == "" {
 			r.field = f
 		}
 		res[r] = true
@@ -105,12 +168,14 @@ type globalInfo struct {
 }
 
 type writeEvent struct {
-	r      root
-	how    string
-	pos    token.Pos
-	via    string // "" for a direct write, otherwise the callee through which it happens
-	lock   bool   // a Lock/Unlock operation on a mutex (synchronisation, not a data write)
-	chanOp bool
+	r    root
+	how  string
+	pos  token.Pos
+	via  string // "" for a direct write, otherwise the callee through which it happens
+	lock bool   // a Lock/Unlock operation on a mutex (synchronisation, not a data write)
+	// the contents of a slice / map / pointed-to value are changed in place (as opposed to a field being set)
+	storage bool
+	chanOp  bool
 }
 
 type globalAccess struct {
@@ -147,6 +212,12 @@ type edge struct {
 	pos    token.Pos
 }
 
+type fieldSet struct {
+	field string
+	from  string
+	pos   token.Pos
+}
+
 type fnInfo struct {
 	qname      string
 	simple     string // function / method name
@@ -161,9 +232,13 @@ type fnInfo struct {
 	paramList  []*types.Var
 	results    []*types.Var
 
-	env          map[types.Object]rootset
-	retRoots     rootset
-	returnsFresh bool
+	env            map[types.Object]rootset
+	retRoots       rootset   // everything pre-existing that some result may reach (own roots of this function)
+	retByIndex     []rootset // the same per result
+	fieldSets      []fieldSet
+	overwritten    map[types.Object]bool
+	summaryChanged bool
+	retained       map[string][]string // allocation site -> where memory allocated in this call is also stored (receiver field, global ...)
 
 	writes      map[string]writeEvent // keyed for de-duplication
 	reads       map[string]bool       // receiver fields read
@@ -508,7 +583,7 @@ func (a *analysis) collectFuncs() {
 	}
 	sort.SliceStable(a.fnList, func(i, j int) bool { return a.fnList[i].qname < a.fnList[j].qname })
 	for _, fn := range a.fnList {
-		fn.returnsFresh = true
+		fn.retRoots = rootset{}
 	}
 }
 
@@ -715,6 +790,11 @@ func (x *fnAn) rootsOf(e ast.Expr) rootset {
 	if tv, ok := info.Types[e]; ok && tv.Type != nil && !tv.IsType() && pure(tv.Type) {
 		return fresh()
 	}
+	return x.rootsRaw(e)
+}
+
+func (x *fnAn) rootsRaw(e ast.Expr) rootset {
+	info := x.fn.pkg.info
 	switch e := e.(type) {
 	case *ast.Ident:
 		return x.identRoots(e)
@@ -722,11 +802,11 @@ func (x *fnAn) rootsOf(e ast.Expr) rootset {
 		return x.rootsOf(e.X)
 	case *ast.SelectorExpr:
 		if sel, ok := info.Selections[e]; ok {
-			rs := x.rootsOf(e.X)
+			rs := x.rootsOfNoPurity(e.X)
 			if sel.Kind() == types.FieldVal {
 				if fv, ok := sel.Obj().(*types.Var); ok {
 					if fi, ok := x.a.fields[fv.Origin()]; ok {
-						return withField(rs, fi.qname)
+						return withField(derefVia(rs, fi.qname), fi.qname)
 					}
 				}
 			}
@@ -744,7 +824,7 @@ func (x *fnAn) rootsOf(e ast.Expr) rootset {
 				return fresh() // instantiation of a generic function
 			}
 		}
-		return x.rootsOf(e.X)
+		return derefVia(x.rootsOf(e.X), "[]")
 	case *ast.IndexListExpr:
 		return fresh()
 	case *ast.SliceExpr:
@@ -760,8 +840,52 @@ func (x *fnAn) rootsOf(e ast.Expr) rootset {
 		return fresh()
 	case *ast.CallExpr:
 		return x.callRoots(e)
+	case *ast.CompositeLit:
+		return x.literalRoots(e)
+	case *ast.FuncLit:
+		return allocAt(e.Pos())
 	}
 	return fresh()
+}
+
+// a composite literal is memory allocated here; it reaches whatever its reference-like components reach
+// (links to the class and objects without state excepted)
+func (x *fnAn) literalRoots(e *ast.CompositeLit) rootset {
+	info := x.fn.pkg.info
+	rs := allocAt(e.Pos())
+	var si *structInfo
+	if tv, ok := info.Types[e]; ok && tv.Type != nil {
+		t := tv.Type
+		if p, ok := t.(*types.Pointer); ok {
+			t = p.Elem()
+		}
+		if n, ok := t.(*types.Named); ok {
+			si = x.a.structs[n.Origin().Obj()]
+		}
+	}
+	for i, el := range e.Elts {
+		val := el
+		var fld *fieldInfo
+		if kv, ok := el.(*ast.KeyValueExpr); ok {
+			val = kv.Value
+			if id, ok := kv.Key.(*ast.Ident); ok {
+				if fv, ok := info.Uses[id].(*types.Var); ok {
+					fld = x.a.fields[fv.Origin()]
+				}
+			}
+		} else if si != nil && si.isStruct && i < len(si.fields) {
+			fld = si.fields[i]
+		}
+		if fld != nil && (!refCapable(fld.kind) || x.a.statelessType(fld.obj.Type())) {
+			continue
+		}
+		via := "[]"
+		if fld != nil {
+			via = fld.qname
+		}
+		rs.addAll(heldVia(x.rootsOf(val), via))
+	}
+	return rs
 }
 
 func (x *fnAn) callRoots(call *ast.CallExpr) rootset {
@@ -775,10 +899,19 @@ func (x *fnAn) callRoots(call *ast.CallExpr) rootset {
 	}
 	if id, ok := fun.(*ast.Ident); ok {
 		if _, isB := info.Uses[id].(*types.Builtin); isB {
-			if id.Name == "append" && len(call.Args) > 0 {
-				rs := fresh()
-				rs.addAll(x.rootsOf(call.Args[0]))
+			switch id.Name {
+			case "append":
+				rs := allocAt(call.Pos())
+				for i, arg := range call.Args {
+					if i == 0 || call.Ellipsis.IsValid() {
+						rs.addAll(x.rootsOf(arg))
+					} else {
+						rs.addAll(heldVia(x.rootsOf(arg), "[]"))
+					}
+				}
 				return rs
+			case "make", "new":
+				return allocAt(call.Pos())
 			}
 			return fresh()
 		}
@@ -795,12 +928,25 @@ func (x *fnAn) callRoots(call *ast.CallExpr) rootset {
 			}
 		}
 		cands := x.a.resolve(callee, rt)
+		rs := allocAt(call.Pos())
 		for _, c := range cands {
-			if !c.returnsFresh {
-				return single(root{kind: "call", name: callee.Name()})
+			rs.addAll(x.substitute(c, c.retRoots, call, recvExpr))
+		}
+		// a generic container (its declared result has a type parameter where this call has a library object type)
+		// hands on the element objects of its receiver and arguments
+		if sig, ok := callee.Type().(*types.Signature); ok && sig.Results().Len() > 0 {
+			if tv, ok := info.Types[call]; ok && tv.Type != nil && x.a.opaqueBoundToObject(sig.Results(), tv.Type) {
+				if recvExpr != nil && rt != nil && x.a.kindOf(rt) != "classlink" {
+					rs.addAll(asElem(x.rootsOf(recvExpr)))
+				}
+				for _, arg := range call.Args {
+					if atv, ok := info.Types[arg]; ok && atv.Type != nil && x.a.containsLibObject(atv.Type, 0) {
+						rs.addAll(asElem(x.rootsOf(arg)))
+					}
+				}
 			}
 		}
-		return fresh()
+		return rs
 	}
 	pkgPath, typeName, _ := recvNamedOf(callee)
 	if recvExpr != nil {
@@ -827,13 +973,152 @@ func (x *fnAn) callRoots(call *ast.CallExpr) rootset {
 	return fresh()
 }
 
+// the roots of a callee's summary expressed in terms of the caller: parameters become the arguments, the
+// receiver becomes the receiver expression, memory allocated by the callee is memory allocated by this call
+func (x *fnAn) substitute(c *fnInfo, summary rootset, call *ast.CallExpr, recvExpr ast.Expr) rootset {
+	res := rootset{}
+	put := func(from root, rs rootset) {
+		for r := range rs {
+			if isFresh(r) {
+				res[r] = true
+				continue
+			}
+			if from.via != "" {
+				r.via = from.via // reached through that field / as an element of the result
+			}
+			if r.field == "" {
+				r.field = from.field
+			}
+			res[r] = true
+		}
+	}
+	for r := range summary {
+		switch r.kind {
+		case "fresh", "alloc":
+			res[root{kind: "alloc", name: fmt.Sprint(int(call.Pos()))}] = true
+		case "param":
+			var idx int
+			fmt.Sscanf(r.name, "%d:", &idx)
+			if idx >= 1 && len(call.Args) > 0 {
+				if idx > len(call.Args) {
+					if len(c.paramList) > 0 && idx == len(c.paramList) {
+						continue // the variadic parameter without arguments
+					}
+					idx = len(call.Args)
+				}
+				if idx == len(c.paramList) && len(call.Args) > idx {
+					for _, arg := range call.Args[idx-1:] {
+						put(r, x.rootsOf(arg))
+					}
+				} else {
+					put(r, x.rootsOf(call.Args[idx-1]))
+				}
+			}
+		case "recv":
+			if recvExpr != nil {
+				put(r, x.rootsOfNoPurity(recvExpr))
+			}
+		default:
+			res[r] = true
+		}
+	}
+	return res
+}
+
+// does the type contain (as element / type argument) a library object type: a named struct, interface or pointer
+// type of the library that is not a link to a class and not a type parameter
+func (a *analysis) containsLibObject(t types.Type, depth int) bool {
+	if t == nil || depth > 5 {
+		return false
+	}
+	switch u := t.(type) {
+	case *types.Named:
+		if _, lib := a.libPkg[u.Origin().Obj().Pkg()]; lib {
+			switch u.Underlying().(type) {
+			case *types.Interface, *types.Struct:
+				if a.kindOf(u) != "classlink" && !a.statelessType(u) {
+					return true
+				}
+			}
+		}
+		if ta := u.TypeArgs(); ta != nil {
+			for i := 0; i < ta.Len(); i++ {
+				if a.containsLibObject(ta.At(i), depth+1) {
+					return true
+				}
+			}
+		}
+		return false
+	case *types.Pointer:
+		return a.containsLibObject(u.Elem(), depth+1)
+	case *types.Slice:
+		return a.containsLibObject(u.Elem(), depth+1)
+	case *types.Array:
+		return a.containsLibObject(u.Elem(), depth+1)
+	case *types.Map:
+		return a.containsLibObject(u.Elem(), depth+1) || a.containsLibObject(u.Key(), depth+1)
+	case *types.Tuple:
+		for i := 0; i < u.Len(); i++ {
+			if a.containsLibObject(u.At(i).Type(), depth+1) {
+				return true
+			}
+		}
+	}
+	return false
+}
+
+// walk the callee's declared type and the type at the call site in parallel: is a type parameter of the callee
+// bound to something that contains a library object type?
+func (a *analysis) opaqueBoundToObject(decl, site types.Type) bool {
+	switch d := decl.(type) {
+	case *types.TypeParam:
+		return a.containsLibObject(site, 0)
+	case *types.Tuple:
+		if s, ok := site.(*types.Tuple); ok && s.Len() == d.Len() {
+			for i := 0; i < d.Len(); i++ {
+				if a.opaqueBoundToObject(d.At(i).Type(), s.At(i).Type()) {
+					return true
+				}
+			}
+			return false
+		}
+		if d.Len() == 1 {
+			return a.opaqueBoundToObject(d.At(0).Type(), site)
+		}
+	case *types.Slice:
+		if s, ok := site.(*types.Slice); ok {
+			return a.opaqueBoundToObject(d.Elem(), s.Elem())
+		}
+	case *types.Pointer:
+		if s, ok := site.(*types.Pointer); ok {
+			return a.opaqueBoundToObject(d.Elem(), s.Elem())
+		}
+	case *types.Map:
+		if s, ok := site.(*types.Map); ok {
+			return a.opaqueBoundToObject(d.Elem(), s.Elem()) || a.opaqueBoundToObject(d.Key(), s.Key())
+		}
+	case *types.Named:
+		if s, ok := site.(*types.Named); ok && d.Origin().Obj() == s.Origin().Obj() && d.TypeArgs() != nil && s.TypeArgs() != nil && d.TypeArgs().Len() == s.TypeArgs().Len() {
+			for i := 0; i < d.TypeArgs().Len(); i++ {
+				if a.opaqueBoundToObject(d.TypeArgs().At(i), s.TypeArgs().At(i)) {
+					return true
+				}
+			}
+		}
+	}
+	return false
+}
+
 // ---------------------------------------------------------------------------------------------
 // local environment (flow insensitive): every local variable -> the roots of everything assigned to it
 // ---------------------------------------------------------------------------------------------
 
 type binding struct {
-	obj types.Object
-	e   ast.Expr
+	obj  types.Object
+	e    ast.Expr
+	def  bool   // the defining binding (var x = e, x := e)
+	elem bool   // only the element objects flow (copy(x, e))
+	via  string // x.f = e / x[i] = e on a local object: the object holds e through that field / as an element
 }
 
 func (x *fnAn) localObj(e ast.Expr) types.Object {
@@ -859,29 +1144,87 @@ func (x *fnAn) localObj(e ast.Expr) types.Object {
 	return v
 }
 
+// the last step of an l-value path: the field assigned, or "[]" for an element / a dereference
+func (x *fnAn) lastStep(e ast.Expr) string {
+	if se, ok := unparen(e).(*ast.SelectorExpr); ok {
+		if sel, ok := x.fn.pkg.info.Selections[se]; ok && sel.Kind() == types.FieldVal {
+			if fv, ok := sel.Obj().(*types.Var); ok {
+				if fi, ok := x.a.fields[fv.Origin()]; ok {
+					return fi.qname
+				}
+			}
+		}
+	}
+	return "[]"
+}
+
+// the local variable at the base of an access path with at least one step (x.f, x[i], *x ...), if any
+func (x *fnAn) baseLocal(e ast.Expr) types.Object {
+	steps := 0
+	for {
+		switch ee := unparen(e).(type) {
+		case *ast.SelectorExpr:
+			if _, ok := x.fn.pkg.info.Selections[ee]; !ok {
+				return nil
+			}
+			e = ee.X
+		case *ast.IndexExpr:
+			e = ee.X
+		case *ast.SliceExpr:
+			e = ee.X
+		case *ast.StarExpr:
+			e = ee.X
+		case *ast.TypeAssertExpr:
+			e = ee.X
+		case *ast.Ident:
+			if steps == 0 {
+				return nil
+			}
+			return x.localObj(ee)
+		default:
+			return nil
+		}
+		steps++
+	}
+}
+
 func (x *fnAn) bindings() []binding {
 	var bs []binding
 	info := x.fn.pkg.info
-	bindAll := func(lhs []ast.Expr, rhs []ast.Expr) {
+	bindAll := func(lhs []ast.Expr, rhs []ast.Expr, def bool) {
 		if len(lhs) == len(rhs) {
 			for i := range lhs {
 				if o := x.localObj(lhs[i]); o != nil {
-					bs = append(bs, binding{o, rhs[i]})
+					bs = append(bs, binding{obj: o, e: rhs[i], def: def})
+				} else if o := x.baseLocal(lhs[i]); o != nil && !def {
+					// x.f = e, x[i] = e, *x = e on a local object: the object now reaches what e reaches
+					bs = append(bs, binding{obj: o, e: rhs[i], via: x.lastStep(lhs[i])})
 				}
 			}
 		} else if len(rhs) == 1 {
 			for i := range lhs {
 				if o := x.localObj(lhs[i]); o != nil {
-					bs = append(bs, binding{o, rhs[0]})
+					bs = append(bs, binding{obj: o, e: rhs[0], def: def})
 				}
 			}
 		}
 	}
+	x.fn.overwritten = map[types.Object]bool{}
 	ast.Inspect(x.fn.body, func(n ast.Node) bool {
 		switch n := n.(type) {
 		case *ast.AssignStmt:
 			if n.Tok == token.DEFINE || n.Tok == token.ASSIGN {
-				bindAll(n.Lhs, n.Rhs)
+				bindAll(n.Lhs, n.Rhs, n.Tok == token.DEFINE)
+			}
+		case *ast.CallExpr:
+			if id, ok := unparen(n.Fun).(*ast.Ident); ok && id.Name == "copy" && len(n.Args) == 2 {
+				if _, isB := info.Uses[id].(*types.Builtin); isB {
+					if o := x.baseLocal(n.Args[0]); o != nil {
+						bs = append(bs, binding{obj: o, e: n.Args[1], elem: true})
+					} else if o := x.localObj(n.Args[0]); o != nil {
+						bs = append(bs, binding{obj: o, e: n.Args[1], elem: true})
+					}
+				}
 			}
 		case *ast.ValueSpec:
 			if len(n.Values) > 0 && x.fn.decl != nil {
@@ -889,15 +1232,27 @@ func (x *fnAn) bindings() []binding {
 				for i, id := range n.Names {
 					lhs[i] = id
 				}
-				bindAll(lhs, n.Values)
+				bindAll(lhs, n.Values, true)
 			}
 		case *ast.RangeStmt:
+			// for k := range x { x[k] = e ... }: every element of x is replaced
+			if xo := x.localObj(n.X); xo != nil && n.Key != nil {
+				if ko := x.localObj(n.Key); ko != nil {
+					for _, st := range n.Body.List {
+						if as, ok := st.(*ast.AssignStmt); ok && as.Tok == token.ASSIGN && len(as.Lhs) == 1 {
+							if ix, ok := unparen(as.Lhs[0]).(*ast.IndexExpr); ok && x.localObj(ix.X) == xo && x.localObj(ix.Index) == ko {
+								x.fn.overwritten[xo] = true
+							}
+						}
+					}
+				}
+			}
 			for _, kv := range []ast.Expr{n.Key, n.Value} {
 				if kv == nil {
 					continue
 				}
 				if o := x.localObj(kv); o != nil {
-					bs = append(bs, binding{o, n.X})
+					bs = append(bs, binding{obj: o, e: n.X})
 				}
 			}
 		case *ast.TypeSwitchStmt:
@@ -905,7 +1260,7 @@ func (x *fnAn) bindings() []binding {
 				if ta, ok := unparen(as.Rhs[0]).(*ast.TypeAssertExpr); ok {
 					for _, cl := range n.Body.List {
 						if o := info.Implicits[cl]; o != nil {
-							bs = append(bs, binding{o, ta.X})
+							bs = append(bs, binding{obj: o, e: ta.X})
 						}
 					}
 				}
@@ -927,6 +1282,24 @@ func (x *fnAn) computeEnv() {
 		changed := false
 		for _, b := range bs {
 			rs := x.rootsOf(b.e)
+			if b.elem {
+				if tv, ok := fn.pkg.info.Types[b.e]; !ok || tv.Type == nil || !x.a.containsLibObject(tv.Type, 0) {
+					continue // elements of pure / opaque type: nothing flows
+				}
+				rs = asElem(rs)
+			}
+			if b.via != "" {
+				rs = heldVia(rs, b.via)
+			}
+			if b.def && fn.overwritten[b.obj] {
+				kept := rootset{}
+				for r := range rs {
+					if r.via != "[]" {
+						kept[r] = true
+					}
+				}
+				rs = kept
+			}
 			if fn.env[b.obj] == nil {
 				fn.env[b.obj] = rootset{}
 			}
@@ -943,7 +1316,14 @@ func (x *fnAn) computeEnv() {
 		}
 	}
 	// what the function returns
-	fn.retRoots = rootset{}
+	nresults := 0
+	if fn.obj != nil {
+		nresults = fn.obj.Type().(*types.Signature).Results().Len()
+	}
+	fn.retByIndex = make([]rootset, nresults)
+	for i := range fn.retByIndex {
+		fn.retByIndex[i] = rootset{}
+	}
 	if fn.decl != nil {
 		var walk func(n ast.Node) bool
 		walk = func(n ast.Node) bool {
@@ -952,21 +1332,33 @@ func (x *fnAn) computeEnv() {
 				return false // returns of a closure are not returns of the function
 			case *ast.ReturnStmt:
 				if len(n.Results) == 0 {
-					for _, r := range fn.results {
+					for i, r := range fn.results {
 						if !pure(r.Type()) {
-							if rs, ok := fn.env[r]; ok {
-								fn.retRoots.addAll(rs)
+							if rs, ok := fn.env[r]; ok && i < nresults {
+								fn.retByIndex[i].addAll(rs)
 							}
 						}
 					}
 				}
-				for _, r := range n.Results {
-					fn.retRoots.addAll(x.rootsOf(r))
+				for i, r := range n.Results {
+					if len(n.Results) == nresults {
+						fn.retByIndex[i].addAll(x.rootsOf(r))
+					} else if nresults > 0 {
+						fn.retByIndex[0].addAll(x.rootsOf(r)) // return f() forwarding a tuple
+					}
 				}
 			}
 			return true
 		}
 		ast.Inspect(fn.body, walk)
+	}
+	for _, rs := range fn.retByIndex {
+		for r := range rs {
+			if !isFresh(r) && !fn.retRoots[r] {
+				fn.retRoots[r] = true
+				fn.summaryChanged = true
+			}
+		}
 	}
 }
 
@@ -974,13 +1366,29 @@ func (x *fnAn) computeEnv() {
 // events
 // ---------------------------------------------------------------------------------------------
 
-func (fn *fnInfo) addWrite(r root, how string, pos token.Pos, via string) bool {
+func (fn *fnInfo) addWrite(r root, how string, pos token.Pos, via string, storage bool) bool {
+	r.via = ""
 	key := r.kind + "|" + r.name + "|" + r.field + "|" + how + "|" + via
-	if _, ok := fn.writes[key]; ok {
+	if old, ok := fn.writes[key]; ok {
+		if storage && !old.storage {
+			old.storage = true
+			fn.writes[key] = old
+			return true
+		}
 		return false
 	}
-	fn.writes[key] = writeEvent{r: r, how: how, pos: pos, via: via}
+	fn.writes[key] = writeEvent{r: r, how: how, pos: pos, via: via, storage: storage}
 	return true
+}
+
+// does an assignment to this l-value change the contents of a slice / map / pointed-to value (x[i] = , *x = )
+// rather than set a field or a variable?
+func isStorageLvalue(e ast.Expr) bool {
+	switch unparen(e).(type) {
+	case *ast.IndexExpr, *ast.StarExpr:
+		return true
+	}
+	return false
 }
 
 // the roots written by an assignment to the l-value e, and whether the write goes through an indirection
@@ -1002,7 +1410,8 @@ func (x *fnAn) lv(e ast.Expr) (rootset, bool) {
 		return x.identRoots(e), false
 	case *ast.SelectorExpr:
 		if sel, ok := info.Selections[e]; ok && sel.Kind() == types.FieldVal {
-			rs, ind := x.lv(e.X)
+			_, ind := x.lv(e.X)
+			rs := identity(x.rootsOfNoPurity(e.X)) // the object whose field is assigned
 			if tv, ok := info.Types[e.X]; ok {
 				if _, isPtr := tv.Type.Underlying().(*types.Pointer); isPtr {
 					ind = true
@@ -1022,7 +1431,8 @@ func (x *fnAn) lv(e ast.Expr) (rootset, bool) {
 		}
 		return x.rootsOf(e), false
 	case *ast.IndexExpr:
-		rs, ind := x.lv(e.X)
+		_, ind := x.lv(e.X)
+		rs := identity(x.rootsOfNoPurity(e.X)) // the storage whose element is assigned
 		if tv, ok := info.Types[e.X]; ok {
 			switch tv.Type.Underlying().(type) {
 			case *types.Slice, *types.Map, *types.Pointer:
@@ -1031,7 +1441,8 @@ func (x *fnAn) lv(e ast.Expr) (rootset, bool) {
 		}
 		return rs, ind
 	case *ast.SliceExpr:
-		rs, ind := x.lv(e.X)
+		_, ind := x.lv(e.X)
+		rs := identity(x.rootsOfNoPurity(e.X))
 		if tv, ok := info.Types[e.X]; ok {
 			switch tv.Type.Underlying().(type) {
 			case *types.Slice, *types.Pointer:
@@ -1040,12 +1451,105 @@ func (x *fnAn) lv(e ast.Expr) (rootset, bool) {
 		}
 		return rs, ind
 	case *ast.StarExpr:
-		rs, _ := x.lv(e.X)
-		return rs, true
+		return identity(x.rootsOfNoPurity(e.X)), true
 	case *ast.TypeAssertExpr:
 		return x.lv(e.X)
 	}
 	return x.rootsOf(e), false
+}
+
+// an assignment l = r whose target is memory that existed before the call: (1) memory allocated in this call that is
+// stored there is no longer exclusively the result's; (2) a field of the receiver that is set to something that is
+// not freshly allocated is recorded (foot_field_sets)
+func (x *fnAn) noteStore(l, r ast.Expr) {
+	fn := x.fn
+	target, ind := x.lv(l)
+	if !ind {
+		return
+	}
+	var where []string
+	for _, t := range identity(target).sorted() {
+		if isFresh(t) {
+			continue
+		}
+		d := t.kind
+		if t.kind == "param" || t.kind == "global" {
+			d += " " + t.name
+		}
+		if t.field != "" {
+			d += " field " + t.field
+		}
+		where = append(where, d)
+	}
+	if len(where) == 0 {
+		return
+	}
+	if tv, ok := fn.pkg.info.Types[r]; ok && tv.Type != nil && pure(tv.Type) {
+		return
+	}
+	rs := x.rootsOf(r)
+	for v := range rs {
+		if v.kind == "alloc" {
+			if fn.retained == nil {
+				fn.retained = map[string][]string{}
+			}
+			fn.retained[v.name] = append(fn.retained[v.name], where...)
+		}
+	}
+	// v.f = e directly on the receiver
+	if se, ok := unparen(l).(*ast.SelectorExpr); ok {
+		if id, ok := unparen(se.X).(*ast.Ident); ok && fn.recvVar != nil && fn.pkg.info.Uses[id] == fn.recvVar {
+			if sel, ok := fn.pkg.info.Selections[se]; ok && sel.Kind() == types.FieldVal {
+				if fv, ok := sel.Obj().(*types.Var); ok {
+					if fi, ok := x.a.fields[fv.Origin()]; ok && refCapable(fi.kind) {
+						for _, v := range rs.sorted() {
+							if !isFresh(v) {
+								fn.fieldSets = append(fn.fieldSets, fieldSet{field: fi.qname, from: describeRoot(v), pos: l.Pos()})
+							}
+						}
+					}
+				}
+			}
+		}
+	}
+}
+
+func describeRoot(r root) string {
+	d := ""
+	switch r.kind {
+	case "recv":
+		d = "receiver"
+	case "param":
+		var pi int
+		fmt.Sscanf(r.name, "%d:", &pi)
+		d = fmt.Sprintf("parameter %d", pi)
+	case "global":
+		d = "global " + r.name
+	case "call":
+		d = "result of " + r.name
+	default:
+		d = r.kind
+	}
+	if r.field != "" {
+		d += " field " + r.field
+	}
+	switch r.via {
+	case "":
+		return "aliases " + d
+	case "[]":
+		return "contains the objects of " + d
+	}
+	return "keeps in " + r.via + " " + d
+}
+
+// a method of a type outside the library changes the state of the object e (not the contents of a slice or map)
+func (x *fnAn) writeObject(e ast.Expr, how string, pos token.Pos) {
+	rs, _ := x.lv(e)
+	for r := range identity(rs) {
+		if !isFresh(r) {
+			x.fn.addWrite(r, how, pos, "", false)
+		}
+	}
 }
 
 func (x *fnAn) write(e ast.Expr, how string, force bool, pos token.Pos) {
@@ -1053,11 +1557,11 @@ func (x *fnAn) write(e ast.Expr, how string, force bool, pos token.Pos) {
 	if !(ind || force) {
 		return
 	}
-	for r := range rs {
-		if r.kind == "fresh" {
+	for r := range identity(rs) {
+		if isFresh(r) {
 			continue
 		}
-		x.fn.addWrite(r, how, pos, "")
+		x.fn.addWrite(r, how, pos, "", force || isStorageLvalue(e))
 	}
 }
 
@@ -1118,6 +1622,8 @@ func (x *fnAn) events() {
 	fn.calls = nil
 	fn.creates = map[string]bool{}
 	fn.usesFields = map[string]bool{}
+	fn.fieldSets = nil
+	fn.retained = nil
 	fn.spawns, fn.closures = 0, 0
 	written := map[ast.Expr]bool{}      // plain-assignment targets (not reads)
 	gWritten := map[*ast.Ident]string{} // global identifiers that are the root of a write: kind
@@ -1180,13 +1686,16 @@ func (x *fnAn) events() {
 			return
 		}
 		for _, r := range x.rootsOf(val).sorted() {
-			if r.kind == "fresh" {
+			if isFresh(r) {
 				continue
 			}
 			src := ""
 			switch r.kind {
 			case "param":
 				src = "arg " + r.name + " of " + fn.qname
+				if r.field != "" {
+					src += " field " + r.field
+				}
 				var idx int
 				fmt.Sscanf(r.name, "%d:", &idx)
 				if fn.kept == nil {
@@ -1239,6 +1748,9 @@ func (x *fnAn) events() {
 					x.write(l, how, false, l.Pos())
 					noteGlobalWrite(l, how)
 					if n.Tok == token.ASSIGN && len(n.Lhs) == len(n.Rhs) {
+						x.noteStore(l, n.Rhs[i])
+					}
+					if n.Tok == token.ASSIGN && len(n.Lhs) == len(n.Rhs) {
 						if se, ok := unparen(l).(*ast.SelectorExpr); ok {
 							if sel, ok := info.Selections[se]; ok && sel.Kind() == types.FieldVal {
 								if fv, ok := sel.Obj().(*types.Var); ok {
@@ -1258,9 +1770,9 @@ func (x *fnAn) events() {
 			if n.Op == token.AND {
 				if _, isLit := unparen(n.X).(*ast.CompositeLit); !isLit {
 					rs, _ := x.lv(n.X)
-					for r := range rs {
-						if r.kind != "fresh" && (r.field != "" || r.kind == "global") {
-							fn.addWrite(r, "address-taken", n.Pos(), "")
+					for r := range identity(rs) {
+						if !isFresh(r) && (r.field != "" || r.kind == "global") {
+							fn.addWrite(r, "address-taken", n.Pos(), "", false)
 						}
 					}
 					noteGlobalWrite(n.X, "address-taken")
@@ -1343,6 +1855,8 @@ func (x *fnAn) rootsOfNoPurity(e ast.Expr) rootset {
 		return x.rootsOfNoPurity(e.X)
 	case *ast.StarExpr:
 		return x.rootsOfNoPurity(e.X)
+	case *ast.SelectorExpr, *ast.IndexExpr, *ast.SliceExpr:
+		return x.rootsRaw(e)
 	}
 	return x.rootsOf(e)
 }
@@ -1403,8 +1917,8 @@ func (x *fnAn) callEvents(call *ast.CallExpr, scope int, isDeferred bool, noteGl
 					return
 				}
 				rs, _ := x.lv(recvExpr)
-				for r := range rs {
-					if r.kind == "fresh" {
+				for r := range identity(rs) {
+					if isFresh(r) {
 						continue
 					}
 					key := "lock|" + r.kind + "|" + r.name + "|" + r.field
@@ -1418,7 +1932,7 @@ func (x *fnAn) callEvents(call *ast.CallExpr, scope int, isDeferred bool, noteGl
 				return
 			}
 			if ptr && !immutableExternal[q] && pkgPath != "reflect" {
-				x.write(recvExpr, "call "+q+"."+callee.Name(), true, call.Pos())
+				x.writeObject(recvExpr, "call "+q+"."+callee.Name(), call.Pos())
 				if g := x.globalOf(recvExpr); g != nil {
 					noteGlobalMutate(info, recvExpr, noteGlobalWrite, "call "+q+"."+callee.Name())
 				} else {
